@@ -136,7 +136,15 @@ fn gen_pattern(t: &mut Tape, base: &[u8], all_paths: &[Vec<u8>], c: &mut Case) -
         }
         4 => {
             c.label("pat-starstar");
-            match t.weighted(&[3, 3, 3, 2, 2]) {
+            match t.weighted(&[3, 3, 3, 2, 2, 1]) {
+                5 => {
+                    // `lit**/name`: git lets this `**` cross directories (recorded deviation class)
+                    c.label("pat-doublestar-after-literal");
+                    let keep = t.range(1, comps[0].len().max(1)).min(comps[0].len());
+                    escape_glob(&comps[0][..keep], &mut pat, true);
+                    pat.extend_from_slice(b"**/");
+                    escape_glob(base_name, &mut pat, false);
+                }
                 0 => {
                     pat.extend_from_slice(b"**/");
                     escape_glob(base_name, &mut pat, false);
@@ -621,6 +629,8 @@ struct Analysis {
     reach_macro_redefined: Vec<Vec<u8>>,
     /// ... info/attributes, provided a .gitattributes below the root assigns something in that set as well
     reach_info_vs_subdir: Vec<Vec<u8>>,
+    /// ... a line whose pattern is of the form `lit**...`
+    reach_dstar: Vec<Vec<u8>>,
 }
 
 fn analyse(spec: &Spec) -> Analysis {
@@ -633,6 +643,7 @@ fn analyse(spec: &Spec) -> Analysis {
         names: Vec<Vec<u8>>,
         has_empty_name: bool,
         not_set: Vec<Vec<u8>>,
+        dstar: bool,
     }
     let mut lines = Vec::new();
     for (loc, content) in &spec.attr_files {
@@ -648,8 +659,10 @@ fn analyse(spec: &Spec) -> Analysis {
             lines.push(Line {
                 loc: loc.clone(),
                 names: toks.iter().map(|t| t.0.clone()).collect(),
-                has_empty_name: toks.iter().any(|t| t.0.is_empty()),
+                // `[attr]` followed by a blank is an empty macro name for gitoxide, and a pattern (bracket expression) for git
+                has_empty_name: toks.iter().any(|t| t.0.is_empty()) || head == b"[attr]",
                 not_set: toks.iter().filter(|t| !t.1).map(|t| t.0.clone()).collect(),
+                dstar: doublestar_after_literal_prefix(&effective_pattern(&head)),
             });
         }
     }
@@ -707,7 +720,9 @@ fn analyse(spec: &Spec) -> Analysis {
             .collect(),
     );
     let reach_info_vs_subdir = info.into_iter().filter(|n| subdir.contains(n)).collect();
+    let reach_dstar = closure(lines.iter().filter(|l| l.dstar).flat_map(|l| l.names.iter().cloned()).collect());
     Analysis {
+        reach_dstar,
         reach_macro_not_set,
         reach_empty_name,
         reach_macro_redefined,
@@ -715,6 +730,44 @@ fn analyse(spec: &Spec) -> Analysis {
     }
 }
 
+/// `lit**...`: the first wildcard of the pattern is a `**` that follows a non-slash literal. git compares the literal
+/// prefix separately and hands only the rest to wildmatch, where the `**` is then at the start of the pattern and may
+/// match across directories; gitoxide matches the whole pattern, where it is an ordinary `*`.
+fn doublestar_after_literal_prefix(pat: &[u8]) -> bool {
+    let pat = pat.strip_prefix(b"/").unwrap_or(pat);
+    match pat.iter().position(|b| matches!(b, b'*' | b'?' | b'[' | b'\\')) {
+        Some(n) if n > 0 => pat[n - 1] != b'/' && pat[n..].starts_with(b"**"),
+        _ => false,
+    }
+}
+
+/// the pattern git uses for the first token of a line
+fn effective_pattern(head: &[u8]) -> Vec<u8> {
+    if head.len() >= 2 && head[0] == b'"' && head[head.len() - 1] == b'"' {
+        let mut out = Vec::new();
+        let inner = &head[1..head.len() - 1];
+        let mut i = 0;
+        while i < inner.len() {
+            if inner[i] == b'\\' && i + 1 < inner.len() {
+                i += 1;
+                out.push(match inner[i] {
+                    b't' => b'\t',
+                    b'r' => b'\r',
+                    b'n' => b'\n',
+                    o => o,
+                });
+            } else {
+                out.push(inner[i]);
+            }
+            i += 1;
+        }
+        out
+    } else {
+        head.to_vec()
+    }
+}
+
+const SIG_DSTAR: &str = "doublestar-after-literal-prefix";
 const SIG_INFO: &str = "info-attributes-below-subdirectory-files";
 const SIG_MACRO_NOT_SET: &str = "macro-expanded-although-not-set";
 const SIG_MACRO_REDEF: &str = "macro-redefinition-stale";
@@ -723,7 +776,9 @@ const SIG_EMPTY_NAME: &str = "empty-attribute-name-accepted";
 /// The recorded deviation class that can explain a difference in attribute `name`, if any
 fn classify(a: &Analysis, name: &str) -> Option<&'static str> {
     let n = name.as_bytes().to_vec();
-    if a.reach_info_vs_subdir.contains(&n) {
+    if a.reach_dstar.contains(&n) {
+        Some(SIG_DSTAR)
+    } else if a.reach_info_vs_subdir.contains(&n) {
         Some(SIG_INFO)
     } else if a.reach_macro_not_set.contains(&n) {
         Some(SIG_MACRO_NOT_SET)
@@ -919,6 +974,7 @@ fn main() {
                     deferred.get_or_insert((sig, msg));
                 } else {
                     c.label(match sig {
+                        SIG_DSTAR => "tolerated:doublestar-after-literal-prefix",
                         SIG_INFO => "tolerated:info-attributes-below-subdirectory-files",
                         SIG_MACRO_NOT_SET => "tolerated:macro-expanded-although-not-set",
                         SIG_MACRO_REDEF => "tolerated:macro-redefinition-stale",
